@@ -114,6 +114,17 @@ class World:
                     first = [c, a] if j % 2 else [c, b]
                     vm.set_same(first)
                     union(first)
+            elif kind == "real_merge" and len(self.reals) >= 4:
+                # two existing classes merged by a third call: (a,b), (c,d), then (b,d) or (d,a)
+                a, b, c, d = (self.reals[(i + k) % len(self.reals)] for k in range(4))
+                if len({a, b, c, d}) == 4:
+                    vm.set_same([a, b])
+                    union([a, b])
+                    vm.set_same([c, d])
+                    union([c, d])
+                    third = [b, d] if j % 2 else [d, a]
+                    vm.set_same(third)
+                    union(third)
             elif kind == "cplx_chain" and len(self.cplx) >= 3:
                 a, b, c = (self.cplx[(i + k) % len(self.cplx)] for k in range(3))
                 if len({a, b, c}) == 3 and len({vm.complex_vars[x] for x in (a, b, c)}) == 1 and not ({a, b, c} & self.share_r):
@@ -479,9 +490,9 @@ phase = st.one_of(st.floats(-3.1, 3.1), st.sampled_from([4.0, 6.04, -5.0, 9.5, m
 radius = st.one_of(st.floats(0.1, 3.0), st.floats(-3.0, -0.1), st.sampled_from([1.0, -1.0, 0.0]))
 setup_st = st.fixed_dictionaries(
     {
-        "reals": st.lists(val, min_size=1, max_size=3),
+        "reals": st.lists(val, min_size=1, max_size=4),
         "cplx": st.lists(st.tuples(radius, phase, st.booleans()), min_size=1, max_size=4),
-        "ties": st.lists(st.tuples(st.sampled_from(["real", "cplx", "share_r", "real_all", "real_chain", "cplx_chain"]), st.integers(0, 3), st.integers(0, 3)), max_size=3),
+        "ties": st.lists(st.tuples(st.sampled_from(["real", "cplx", "share_r", "real_all", "real_chain", "cplx_chain", "real_merge"]), st.integers(0, 3), st.integers(0, 3)), max_size=3),
         "fix": st.lists(st.integers(0, 10), max_size=3),
         "bounds": st.lists(st.tuples(st.integers(0, 2), st.sampled_from(["two", "lower", "upper"]), st.floats(0.1, 2.0), st.floats(0.1, 2.0)), max_size=2),
         "order": st.sampled_from(["tfb", "fbt"]),
